@@ -119,6 +119,12 @@ func spMetadataXML(entityID string, acs []string) string {
 	return sb.String()
 }
 
+// unstorableMetadataXML: metadata that parses but whose validUntil (zone +24:00) cannot be
+// marshalled to JSON, so the Store.Put of the service fails inside the store.
+func unstorableMetadataXML(entityID, acs string) string {
+	return strings.Replace(spMetadataXML(entityID, []string{acs}), `<EntityDescriptor `, `<EntityDescriptor validUntil="2030-01-01T00:00:00+24:00" `, 1)
+}
+
 // aggEnt is one entity of an EntitiesDescriptor aggregate (SP = it has an SPSSODescriptor).
 type aggEnt struct {
 	Entity string
@@ -256,6 +262,26 @@ func serve(h http.Handler, q reqSpec) (rec *recorder, panicked any) {
 	}()
 	h.ServeHTTP(rec, r)
 	return rec, nil
+}
+
+// serveDeadline is serve under a per-request deadline: a request that gets no reply in time
+// is an observation (hung), not a harness error; its goroutine is abandoned.
+func serveDeadline(h http.Handler, q reqSpec, d time.Duration) (rec *recorder, panicked any, hung bool) {
+	type out struct {
+		r *recorder
+		p any
+	}
+	ch := make(chan out, 1)
+	go func() {
+		r, p := serve(h, q)
+		ch <- out{r, p}
+	}()
+	select {
+	case o := <-ch:
+		return o.r, o.p, false
+	case <-time.After(d):
+		return nil, nil, true
+	}
 }
 
 var (
